@@ -188,6 +188,14 @@ def handle : List Sexp → Option String
       some (match (if which == "set" then GenK.seqOfSetIdx n' i' else GenK.seqOfGetIdx n' i') with
         | .ok v => s!"ok {v}"
         | .error e => "err " ++ errName e)
+  | .atom "KANYCAP" :: .atom mark :: .atom start :: .atom unt :: .atom len :: args => do
+      let a ← intArgs args
+      let m ← mark.toInt?
+      let st ← start.toInt?
+      let l ← len.toInt?
+      some (match GenK.anyCapture m a st (unt == "1") l with
+        | .ok (c, p) => s!"ok{ints c} | {p}"
+        | .error e => "err " ++ errName e)
   | .atom "KBERBOOLDEC" :: args => do
       let a ← intArgs args
       some (match GenK.intDecode a >>= GenK.berBoolDec with
